@@ -93,18 +93,20 @@ pub fn op(req: &Value) -> Value {
                 .map(|a| a.iter().filter_map(|x| x.as_str().map(String::from)).collect())
                 .unwrap_or_default();
             reset_touches();
-            let first = outcome(src, &get, &Value::Null);
-            let again = outcome(src, &get, &Value::Null);
+            // every run is bounded by (deterministic) counters, so that a generated program cannot loop
+            let base = json!({"size": 50000000u64, "depth": 300, "recursion": 200, "ud_calls": 20000, "search": 20000});
+            let first = outcome(src, &get, &base);
+            let again = outcome(src, &get, &base);
             if let Some(b) = req["before"].as_array() {
                 for t in b {
                     let _ = compile(t.as_str().unwrap_or(""));
                 }
             }
-            let after = outcome(src, &get, &Value::Null);
+            let after = outcome(src, &get, &base);
             let limited = outcome(
                 src,
                 &get,
-                &json!({"size": 100000000u64, "depth": 500, "recursion": 400, "ud_calls": 1000000, "search": 1000000}),
+                &json!({"size": 200000000u64, "depth": 600, "recursion": 400, "ud_calls": 40000, "search": 40000}),
             );
             json!({"first": first, "again": again, "after": after, "limited": limited})
         }
